@@ -46,6 +46,8 @@ def _ones(shape, dtype=None, **k):
 
 
 def _zeros_like(a, dtype=None, **k):
+    if type(a).__name__ == 'SymVec':
+        return a.gram.zero()
     a = _np.asarray(a)
     dt = dtype if dtype is not None else a.dtype
     return _zeros(a.shape, dt)
@@ -145,7 +147,23 @@ def _cumsum(a, *args, **k):
     return _np.cumsum(a, *args, **k)
 
 
+def _array_unify(obj, dtype=None, **k):
+    """numba unifies the element type of a list built from int and float scalars to float64
+    (prox_SCAD: x_1 = max(0, <float>) is a float under numba, an int 0 under CPython)"""
+    if dtype is None and isinstance(obj, (list, tuple)) and obj and all(
+            isinstance(v, (int, float, SymReal)) and not isinstance(v, bool) for v in obj):
+        a = _np.empty(len(obj), dtype=object)
+        for i, v in enumerate(obj):
+            a[i] = float(v) if isinstance(v, int) else v
+        return a
+    return _array(obj, dtype, **k)
+
+
 class NPProxy:
+    def __init__(self, unify=False):
+        if unify:
+            self.array = _array_unify
+
     zeros = staticmethod(_zeros)
     empty = staticmethod(_zeros)
     ones = staticmethod(_ones)
@@ -189,7 +207,7 @@ def install():
         mod = importlib.import_module(m.name)
         MODULES[m.name] = mod
         if getattr(mod, 'np', None) is _np:
-            mod.np = proxy
+            mod.np = NPProxy(unify=True) if m.name == 'skglm.utils.prox_funcs' else proxy
     _installed = True
     return MODULES
 
